@@ -257,7 +257,7 @@ def run_driver(cmd, lines, env=None, timeout=3600):
 
 def impl_timeout(nops):
     """generous bound for the implementation driver: the unchanged tree does ~5 000 ops/s (floods: 30 000/s)"""
-    return int(os.environ.get('VERIF_IMPL_TIMEOUT', 0)) or 90 + nops // 100
+    return int(os.environ.get('VERIF_IMPL_TIMEOUT', 0)) or 60 + nops // 300
 
 
 def parse_blocks(text):
